@@ -37,6 +37,8 @@ func (s LedStep) String() string {
 		return fmt.Sprintf("key %d=%d", s.Code, s.Val)
 	case "midi":
 		return fmt.Sprintf("midi-in % x", s.Midi)
+	case "abs":
+		return fmt.Sprintf("abs %d=%d", s.Code, s.Val)
 	}
 	return s.T
 }
@@ -97,6 +99,18 @@ var ledSyn = &input.InputEvent{Event: evdev.InputEvent{Type: evdev.EV_SYN}}
 
 func (ld *ledDevice) key(code uint16, val int32) error {
 	ev := &input.InputEvent{Source: handlerFor(&ld.inDev, ""), Event: evdev.InputEvent{Type: evdev.EV_KEY, Code: evdev.EvCode(code), Value: val}}
+	for _, e := range []*input.InputEvent{ev, ledSyn} {
+		select {
+		case ld.in <- e:
+		case <-time.After(10 * time.Second):
+			return fmt.Errorf("event processing is stuck")
+		}
+	}
+	return nil
+}
+
+func (ld *ledDevice) abs(code uint16, val int32) error {
+	ev := &input.InputEvent{Source: handlerFor(&ld.inDev, ""), Event: evdev.InputEvent{Type: evdev.EV_ABS, Code: evdev.EvCode(code), Value: val}}
 	for _, e := range []*input.InputEvent{ev, ledSyn} {
 		select {
 		case ld.in <- e:
@@ -614,6 +628,16 @@ func genC17(t *rapid.T) C17Case {
 	}
 	nMap := rapid.IntRange(1, 3).Draw(t, "mappings")
 	center := rapid.SampledFrom([]int{60, 60, 36, 5, 120}).Draw(t, "center")
+	switch rapid.IntRange(0, 7).Draw(t, "extreme") {
+	case 0: // notes at the bottom, pulled below zero by the semitone shift and back into range by the octave
+		center = rapid.IntRange(2, 6).Draw(t, "lowCenter")
+		d.Semitone = -rapid.IntRange(3, 11).Draw(t, "negSemitone")
+		d.Octave = rapid.IntRange(1, 3).Draw(t, "posOctave")
+	case 1: // the mirror image at the top
+		center = rapid.IntRange(121, 125).Draw(t, "highCenter")
+		d.Semitone = rapid.IntRange(3, 11).Draw(t, "posSemitone")
+		d.Octave = -rapid.IntRange(1, 3).Draw(t, "negOctave")
+	}
 	for mi := 0; mi < nMap; mi++ {
 		m := MappingDef{Name: []string{"Piano", "Chromatic", "Drums"}[mi], KeySubs: []string{""}}
 		for i := 0; i < nNote; i++ {
@@ -742,6 +766,8 @@ func ledStepsSummary(steps []LedStep) string {
 			}
 		case "midi":
 			parts = append(parts, fmt.Sprintf("midi-in:%x", s.Midi))
+		case "abs":
+			parts = append(parts, fmt.Sprintf("abs%d=%d", s.Code, s.Val))
 		default:
 			parts = append(parts, "OBSERVE")
 		}
